@@ -394,6 +394,202 @@ theorem no_parent_shadowing_partial {c : Cls} {d : Decorated} (h : decorate sing
             cases hao
           exact hdisj.2.2.1 a ha _ hai hne _ hha _ hhelp rfl
 
+/-! ## which item name an attribute gets ("falls back to `<attr>_item`") -/
+
+/-- **item_singular_or_fallback.** After a successful decoration every attribute
+the class owns has as item name either its singular form (`get_singular_form`)
+or `<attr>_item`; and the fallback is used only for a collection whose singular
+form IS the name of an attribute of the class (inherited ones included) or IS
+the item name another collection of the class — its own or an inherited one,
+at any depth — ended up with. -/
+theorem item_singular_or_fallback {c : Cls} {d : Decorated} (h : decorate singular c = .ok d) :
+    ∀ a ∈ d.attrs, a.owned = true →
+      a.item = itemName0 singular a.name ∨
+      (a.kind.isCollection = true ∧ a.item = a.name ++ itemSuffix ∧
+        (itemName0 singular a.name ∈ d.attrs.map (·.name) ∨
+         ∃ b ∈ d.attrs, b.kind.isCollection = true ∧ b.item = itemName0 singular a.name)) := by
+  obtain ⟨_, hr, _⟩ := decorate_ok singular h
+  have R := resolveGo_spec _ _ _ hr
+  intro a ha ho
+  obtain ⟨a0, ha0, hn, hk, hown, _, hch⟩ := resolveGo_choice _ _ _ hr a ha
+  have hit : a0.item = itemName0 singular a0.name :=
+    mergedAttrs_owned singular c a0 ha0 (by rw [← hown]; exact ho)
+  rcases hch with hch | ⟨hcol, hfb, hw⟩
+  · left; rw [hch, hit, hn]
+  · right
+    refine ⟨by rw [hk]; exact hcol, by rw [hfb, hn], ?_⟩
+    rw [hn, ← hit]
+    rcases hw with hw | hw | hw
+    · left; rw [R.sameNames]; exact hw
+    · cases hw
+    · exact Or.inr hw
+
+/-! ## inherited attributes -/
+
+/-- input-side condition under which the inherited attributes go through the
+collision loop of the class being decorated untouched (they are the first to be
+looked at): no item name of an inherited collection is an attribute name of the
+class, and those item names are pairwise distinct (what a successful decoration
+of the parent guarantees — `chain_no_shadowing`). `inheritedPart` is the list of
+inherited attributes in the parent's order, an attribute the class manages again
+being rebuilt in place. `KF-C16-inherited-singular` is exactly a class violating
+the first half. -/
+def quietInherited (singular : Name → Option Name) (c : Cls) : Prop :=
+  (∀ a ∈ inheritedPart singular c, a.kind.isCollection = true →
+      a.item ∉ (mergedAttrs singular c).map (·.name)) ∧
+  (((inheritedPart singular c).filter (·.kind.isCollection)).map (·.item)).Nodup
+
+/-- **inherited_stable_of_quiet.** `inheritedStable` (the hypothesis of
+`no_parent_shadowing_partial` and `own_item_avoids_inherited`) follows from a
+condition on the INPUT of the collision loop: distinct inherited names and
+`quietInherited` — whatever the class itself declares next to them, colliding or
+not. -/
+theorem inherited_stable_of_quiet {c : Cls} {d : Decorated} (h : decorate singular c = .ok d)
+    (hnd : (c.inherited.map (·.name)).Nodup) (hq : quietInherited singular c) :
+    inheritedStable c d := by
+  obtain ⟨_, hr, _⟩ := decorate_ok singular h
+  have R := resolveGo_spec _ _ _ hr
+  have hnames := mergedAttrs_names_nodup singular c hnd
+  refine ⟨?_, by rw [R.sameNames]; exact hnames⟩
+  intro i hi hnot
+  obtain ⟨rest, hm⟩ := mergedAttrs_prefix singular c
+  unfold resolveItems at hr
+  rw [hm] at hr
+  obtain ⟨post', hp⟩ := resolveGo_prefix_kept _ _ _ _ hr
+    (fun a ha hc => ⟨by rw [← hm]; exact hq.1 a ha hc, by simp⟩) hq.2
+  rw [hp]
+  exact List.mem_append_left _ (inheritedPart_kept singular c hi hnot)
+
+/-- **own_item_avoids_inherited.** Whenever the inherited attributes are carried
+over unchanged (`inheritedStable`), no collection the class owns gets the item
+name of an inherited collection — so none of its element helpers is called like
+an element helper the parent registered: a collision with an INHERITED
+collection's singular is detected exactly like one inside the class (fallback or
+`RuntimeError`, theorem `no_shadowing`). -/
+theorem own_item_avoids_inherited {c : Cls} {d : Decorated} (h : decorate singular c = .ok d)
+    (hst : inheritedStable c d) :
+    ∀ a ∈ d.attrs, a.owned = true → a.kind.isCollection = true →
+      ∀ i ∈ c.inherited, (managedAttrs c).contains i.name = false → i.kind.isCollection = true →
+        a.item ≠ i.item ∧ a.item ≠ i.name ∧
+        ∀ p ∈ elemPrefixes, ∀ hn ∈ helperNames ⟨i.name, i.kind, i.item, false, true⟩, p ++ a.item ≠ hn.1 := by
+  intro a ha ho hac i hi hnot hic
+  have hai := hst.1 i hi hnot
+  have hdisj := (no_shadowing singular c).1 d h
+  have hne : a.name ≠ i.name := by
+    intro heq
+    have : a = ⟨i.name, i.kind, i.item, false, true⟩ := inj_of_nodup_map hst.2 ha hai heq
+    rw [this] at ho; cases ho
+  have hitem : a.item ≠ i.item := by
+    intro heq
+    have hm1 : a ∈ d.attrs.filter (·.kind.isCollection) := List.mem_filter.2 ⟨ha, hac⟩
+    have hm2 : (⟨i.name, i.kind, i.item, false, true⟩ : AttrInfo) ∈ d.attrs.filter (·.kind.isCollection) :=
+      List.mem_filter.2 ⟨hai, hic⟩
+    have := inj_of_nodup_map hdisj.2.1 hm1 hm2 heq
+    rw [this] at ho; cases ho
+  have hname : a.item ≠ i.name := by
+    intro heq
+    exact hdisj.1 a ha hac (by rw [heq]; exact List.mem_map.2 ⟨_, hai, rfl⟩)
+  refine ⟨hitem, hname, ?_⟩
+  intro p hp hn hhn heq
+  obtain ⟨p', x, hp', hx, hcase⟩ := helperNames_prefix hhn
+  rw [hx] at heq
+  obtain ⟨_, hxa⟩ := prefix_inj (elemPrefixes_sub hp) hp' heq
+  rcases hcase with ⟨rfl, _, _⟩ | ⟨rfl, _, _, _⟩
+  · exact hname hxa
+  · exact hitem hxa
+
+/-! ## inheritance chains of any depth -/
+
+/-- one step of a chain is one decoration with the inherited list of the class before -/
+theorem decorateChain_cons (inh : List Inherited) (c : Cls) (cs : List Cls) :
+    decorateChain singular inh (c :: cs) =
+      (match decorate singular { c with inherited := inh } with
+       | .error e => .error e
+       | .ok d => match decorateChain singular (inheritedOf d) cs with
+                  | .error e => .error e
+                  | .ok ds => .ok (d :: ds)) := rfl
+
+/-- **chain_no_shadowing.** For a chain of spec classes of ANY depth decorated
+root first (each inheriting the attributes of the one before): whenever the whole
+chain decorates, at EVERY level the attribute names are distinct, no
+collection's item name is an attribute name, the item names of all collections —
+owned or inherited from any depth — are pairwise distinct, and the helper
+families of different attributes are disjoint. And a chain that does not
+decorate fails with `ValueError` or `RuntimeError`. -/
+theorem chain_no_shadowing :
+    ∀ (cs : List Cls) (inh : List Inherited), (inh.map (·.name)).Nodup →
+      (∀ ds, decorateChain singular inh cs = .ok ds →
+        ds.length = cs.length ∧
+        ∀ d ∈ ds,
+          (d.attrs.map (·.name)).Nodup ∧
+          (∀ a ∈ d.attrs, a.kind.isCollection = true → a.item ∉ d.attrs.map (·.name)) ∧
+          ((d.attrs.filter (·.kind.isCollection)).map (·.item)).Nodup ∧
+          (∀ a1 ∈ d.attrs, ∀ a2 ∈ d.attrs, a1.name ≠ a2.name →
+            ∀ h1 ∈ helperNames a1, ∀ h2 ∈ helperNames a2, h1.1 ≠ h2.1)) ∧
+      (∀ e, decorateChain singular inh cs = .error e → e = .valueError ∨ e = .runtimeError) := by
+  intro cs
+  induction cs with
+  | nil =>
+    intro inh _
+    refine ⟨?_, ?_⟩
+    · intro ds h
+      simp only [decorateChain, Except.ok.injEq] at h
+      subst h
+      exact ⟨rfl, fun d hd => by cases hd⟩
+    · intro e h; simp [decorateChain] at h
+  | cons c cs ih =>
+    intro inh hinh
+    have hstep : ∀ d, decorate singular { c with inherited := inh } = .ok d →
+        (d.attrs.map (·.name)).Nodup := by
+      intro d hd
+      obtain ⟨_, hr, _⟩ := decorate_ok singular hd
+      rw [(resolveGo_spec _ _ _ hr).sameNames]
+      exact mergedAttrs_names_nodup singular _ hinh
+    refine ⟨?_, ?_⟩
+    · intro ds h
+      rw [decorateChain_cons] at h
+      cases hd : decorate singular { c with inherited := inh } with
+      | error e => rw [hd] at h; cases h
+      | ok d =>
+        rw [hd] at h
+        simp only at h
+        have hnames := hstep d hd
+        have hinh' : ((inheritedOf d).map (·.name)).Nodup := by
+          simpa [inheritedOf, List.map_map, Function.comp_def] using hnames
+        cases hrest : decorateChain singular (inheritedOf d) cs with
+        | error e => rw [hrest] at h; cases h
+        | ok ds' =>
+          rw [hrest] at h
+          simp only [Except.ok.injEq] at h
+          subst h
+          obtain ⟨hlen, hall⟩ := (ih _ hinh').1 ds' hrest
+          refine ⟨by simp [hlen], ?_⟩
+          intro d' hd'
+          rcases List.mem_cons.1 hd' with rfl | hd'
+          · have N := (no_shadowing singular { c with inherited := inh }).1 _ hd
+            exact ⟨hnames, N.1, N.2.1, N.2.2.1⟩
+          · exact hall d' hd'
+    · intro e h
+      rw [decorateChain_cons] at h
+      cases hd : decorate singular { c with inherited := inh } with
+      | error e' =>
+        rw [hd] at h
+        simp only [Except.error.injEq] at h
+        subst h
+        exact (no_shadowing singular { c with inherited := inh }).2 _ hd
+      | ok d =>
+        rw [hd] at h
+        simp only at h
+        have hinh' : ((inheritedOf d).map (·.name)).Nodup := by
+          simpa [inheritedOf, List.map_map, Function.comp_def] using hstep d hd
+        cases hrest : decorateChain singular (inheritedOf d) cs with
+        | error e' =>
+          rw [hrest] at h
+          simp only [Except.error.injEq] at h
+          subst h
+          exact (ih _ hinh').2 _ hrest
+        | ok ds' => rw [hrest] at h; cases h
+
 /-! ## non-vacuity -/
 
 /-- `class C: x: int = Attr(default=…); ys: List[int]; def with_x(self)…; update = staticmethod(…)` -/
@@ -426,5 +622,76 @@ example : (match decorate (fun _ => none) stableChild with
     | .ok d => d.attrs.contains ⟨['c','h','i','l','d','r','e','n'], .list, ['c','h','i','l','d'], false, true⟩ &&
                (shadowedParentHelpers stableChild d).isEmpty
     | .error _ => false) = true := by decide
+
+/-- `class Team: people: List[str]` / `class Club(Team): persons: List[str]` (both → `person`):
+the collision with the INHERITED collection is resolved by the fallback, the inherited
+attribute is carried over unchanged -/
+def clubSing : Name → Option Name := fun n =>
+  if n == s "people" then some (s "person") else if n == s "persons" then some (s "person") else none
+
+def clubCls : Cls :=
+  { d19Child with annots := [(s "persons", .list)],
+                  inherited := [⟨s "people", .list, s "person"⟩] }
+
+example : (match decorate clubSing clubCls with
+    | .ok d => d.attrs == [⟨s "people", .list, s "person", false, true⟩,
+                           ⟨s "persons", .list, s "persons" ++ itemSuffix, true, true⟩] &&
+               dictGet d.dict (pWith ++ s "persons" ++ itemSuffix) == some (.lazy (.elem pWith (s "persons"))) &&
+               dictGet d.dict (pWith ++ s "person") == none &&
+               (shadowedParentHelpers clubCls d).isEmpty
+    | .error _ => false) = true := by decide
+
+/-- `quietInherited` is not vacuous: it holds for `Club` (whose own collection DOES collide
+with the inherited one), and fails for the class of the open finding -/
+example : quietInherited clubSing clubCls := by
+  refine ⟨?_, by decide⟩
+  intro a ha _
+  simp only [inheritedPart, clubCls, d19Child, List.map_cons, List.map_nil, List.mem_singleton] at ha
+  subst ha
+  decide
+
+example : ¬ quietInherited (fun _ => none) d19Child := by
+  intro h
+  exact absurd (h.1 ⟨s "children", .list, s "child", false, true⟩ (by decide) rfl) (by decide)
+
+/-- `class Base: extra_items: List[str]` / `class Derived(Base): extra: Dict[str, int]`: singular AND
+fallback of `extra` are the inherited collection's item name — decoration raises -/
+example : (match decorate (fun n => if n == s "extra_items" then some (s "extra_item") else none)
+    { d19Child with annots := [(s "extra", .dict)],
+                    inherited := [⟨s "extra_items", .list, s "extra_item"⟩] } with
+    | .ok _ => false | .error e => e == .runtimeError) = true := by decide
+
+/-- a chain of three: `G: people: List` / `P(G): mid: int` / `C(P): persons: List` — the grandparent's
+collection reaches the third level and the collision is found there -/
+example : (match decorateChain clubSing []
+    [{ d19Child with annots := [(s "people", .list)], inherited := [] },
+     { d19Child with annots := [(s "mid", .scalar)] },
+     { d19Child with annots := [(s "persons", .list)] }] with
+    | .ok [_, _, d] => d.attrs.map (fun a => (a.name, a.item, a.owned)) ==
+        [(s "people", s "person", false), (s "mid", s "mid" ++ itemSuffix, false),
+         (s "persons", s "persons" ++ itemSuffix, true)]
+    | _ => false) = true := by decide
+
+/-- the second way an inherited collection is renamed (reported as KF-C16-inherited-renamed):
+`class P: foo: int; foo_items: List[int]` / `class C(P): foo: List[int]` — `C` manages `foo` AGAIN, now a
+collection standing first in the order; it takes `foo_item`, the item name of the inherited `foo_items`, which
+the loop then renames to `foo_items_item`; `C.with_foo_item` hides `P`'s element helper. The model
+reproduces it, and `quietInherited` excludes it (second half: the item names are not distinct). -/
+def renamedSing : Name → Option Name := fun n => if n == s "foo_items" then some (s "foo_item") else none
+
+def renamedChild : Cls :=
+  { d19Child with annots := [(s "foo", .list)],
+                  inherited := [⟨s "foo", .scalar, s "foo" ++ itemSuffix⟩, ⟨s "foo_items", .list, s "foo_item"⟩] }
+
+example : shadowCheck renamedSing renamedChild = false := by decide
+
+example : (match decorate renamedSing renamedChild with
+    | .ok d => shadowedParentHelpers renamedChild d == elemPrefixes.map (· ++ s "foo_item") &&
+               renamedInherited renamedChild d == [s "foo_items"]
+    | .error _ => false) = true := by decide
+
+example : ¬ quietInherited renamedSing renamedChild := by
+  intro h
+  exact absurd h.2 (by decide)
 
 end SpecVerif.Props.C16
